@@ -182,10 +182,30 @@ fn ser_of(doc: &xml_dom::XmlDocument) -> J {
     }
 }
 
+/// Serializations are interned: the trace carries every distinct text once ({"event":"ser","k":n,"text":..}) and
+/// refers to it by number afterwards (an encoding, not a judgement: equal numbers <=> equal texts).
+struct Interner {
+    map: std::collections::HashMap<String, usize>,
+}
+
+impl Interner {
+    fn id(&mut self, ser: &J, out: &mut dyn Write) -> usize {
+        let key = ser.to_string();
+        if let Some(k) = self.map.get(&key) {
+            return *k;
+        }
+        let k = self.map.len() + 1;
+        self.map.insert(key, k);
+        writeln!(out, "{}", json!({"event": "ser", "k": k, "text": ser})).unwrap();
+        k
+    }
+}
+
 fn qs_run(args: &[String]) -> i32 {
     let inp = arg_value(args, "--in").unwrap_or("-");
     let outp = arg_value(args, "--out").unwrap_or("-");
     let mut out = open_out(outp);
+    let mut interner = Interner { map: Default::default() };
     let mut docs: std::collections::BTreeMap<i64, (String, Vec<String>)> = Default::default();
     let mut sessions: Vec<(i64, Vec<usize>)> = vec![];
     for_each_case(inp, |c| match c["k"].as_str().unwrap_or("") {
@@ -212,7 +232,8 @@ fn qs_run(args: &[String]) -> i32 {
         }
         let t = text.clone();
         let ser = in_fresh_thread(move || parse_doc(&t).map(|d| ser_of(&d)).unwrap_or(json!([0])));
-        writeln!(out, "{}", json!({"event": "fresh", "d": d, "answers": answers, "ser": ser})).unwrap();
+        let k = interner.id(&ser, &mut *out);
+        writeln!(out, "{}", json!({"event": "fresh", "d": d, "answers": answers, "ser": k})).unwrap();
     }
     let mut n = 0usize;
     let mut calls = 0usize;
@@ -244,7 +265,8 @@ fn qs_run(args: &[String]) -> i32 {
             });
             calls += answers.len();
             n += 1;
-            writeln!(out, "{}", json!({"event": "session", "d": d, "variant": variant, "qs": qs, "answers": answers, "sers": sers})).unwrap();
+            let ks: Vec<usize> = sers.iter().map(|x| interner.id(x, &mut *out)).collect();
+            writeln!(out, "{}", json!({"event": "session", "d": d, "variant": variant, "qs": qs, "answers": answers, "sers": ks})).unwrap();
         }
     }
     out.flush().unwrap();
